@@ -40,6 +40,7 @@ type Doc struct {
 	Recs     []Rec
 	Maps     []MapEnt
 	Sentinel int // 0 none, 1 MAPPED_LIBRARIES:, 2 --- Memory map: ---
+	Tight    bool // regions one page apart
 	WordSz   int
 	BigEnd   bool
 	SharedPC uint64 // cpu: signal-handler frame inserted at index 1 of every sample (0 = none)
@@ -60,6 +61,12 @@ func genDoc(t *rapid.T) *Doc {
 		// a shared library (or two) mapped below the main binary: listed first, as /proc/self/maps would
 		files = []string{"/lib/libc.so.6", "/lib/libm.so", "/bin/app", "/opt/server"}
 	}
+	gap := uint64(0x100000)
+	if nm > 1 && rapid.IntRange(0, 3).Draw(t, "tight") == 0 {
+		// regions one page apart: the page(s) below a mapping with a file offset then belong to ANOTHER listed
+		// region, which must win over the "first part of a split mapping is missing" work-around
+		gap, d.Tight = 0x1000, true
+	}
 	for i := 0; i < nm; i++ {
 		size := uint64(rapid.SampledFrom([]int{0x1000, 0x4000, 0x100000}).Draw(t, "msize"))
 		m := MapEnt{Start: base, Limit: base + size, Offset: uint64(rapid.SampledFrom([]int{0, 0x1000, 0x2000}).Draw(t, "moff")), File: files[i],
@@ -68,12 +75,38 @@ func genDoc(t *rapid.T) *Doc {
 			m.BuildID = rapid.SampledFrom([]string{"abc123", "deadbeef00"}).Draw(t, "buildid")
 		}
 		d.Maps = append(d.Maps, m)
-		base += size + 0x100000
+		base += size + gap
 	}
 	if nm > 0 {
 		d.Sentinel = rapid.IntRange(1, 2).Draw(t, "sentinel")
 	}
+	covered := func(a uint64) bool {
+		for _, m := range d.Maps {
+			if m.Start <= a && a < m.Limit {
+				return true
+			}
+		}
+		return false
+	}
+	var addr0 func(label string) uint64
 	addr := func(label string) uint64 {
+		a := addr0(label)
+		// an address in no region but within Offset bytes below a mapping is claimed (and the mapping is
+		// rewritten) by the documented work-around: kept out of play, as in the lower-border rule below
+		bad := func(x uint64) bool {
+			for _, m := range d.Maps {
+				if m.Offset != 0 && m.Start-m.Offset <= x && x < m.Start && !covered(x) {
+					return true
+				}
+			}
+			return false
+		}
+		if d.Tight && (bad(a) || bad(a-1)) {
+			return d.Maps[0].Start + 2
+		}
+		return a
+	}
+	addr0 = func(label string) uint64 {
 		// inside a mapping (not its first byte: call sites are moved back by one), or far below all of them
 		if len(d.Maps) > 0 && rapid.IntRange(0, 4).Draw(t, label+"in") != 0 {
 			m := d.Maps[rapid.IntRange(0, len(d.Maps)-1).Draw(t, label+"m")]
@@ -174,7 +207,18 @@ func genDoc(t *rapid.T) *Doc {
 		d.WordSz = rapid.SampledFrom([]int{4, 8}).Draw(t, "wordsz")
 		d.BigEnd = rapid.Bool().Draw(t, "bigendian")
 		d.Rate = rapid.SampledFrom([]int64{1, 10000, 100}).Draw(t, "period")
-		mode := rapid.IntRange(0, 2).Draw(t, "cpumode")
+		mode := rapid.IntRange(0, 3).Draw(t, "cpumode")
+		tiny := mode == 3
+		if tiny {
+			// every word of the file below 128, big-endian, no memory map: each byte pair then reads as a
+			// protobuf "field 0, one-byte varint" and the whole file is also a (meaningless) protobuf message
+			mode = 0
+			d.BigEnd, d.Maps, d.Sentinel = true, nil, 0
+			d.Rate = rapid.SampledFrom([]int64{1, 100, 127}).Draw(t, "tinyperiod")
+			for i := range pool {
+				pool[i] = uint64(4 + 2*rapid.IntRange(0, 20).Draw(t, "tinypc"))
+			}
+		}
 		if mode == 1 {
 			d.SharedPC = 0x7000 // distinct from every pool address
 		}
@@ -189,6 +233,9 @@ func genDoc(t *rapid.T) *Doc {
 		}
 		for i := 0; i < nr; i++ {
 			r := Rec{N1: rapid.OneOf(rapid.Int64Range(1, 1000), rapid.SampledFrom([]int64{127, 128, 129, 255, 256, 0x8000, 0x80000000, 1 << 20})).Draw(t, "count"), Addrs: stack(2)}
+			if tiny {
+				r.N1 = r.N1%127 + 1
+			}
 			if r.Addrs[1] == r.Addrs[0] {
 				r.Addrs[1] += 16 // a second frame equal to the leaf is the duplicated-leaf artefact (generated separately)
 			}
@@ -412,7 +459,7 @@ func (d *Doc) Print() []byte {
 				fmt.Fprintf(&b, "%08x-%08x %s %08x 08:01 %d %s\n", m.Start, m.Limit, m.Perm, m.Offset, 1000+i, m.File)
 			}
 			// a non-executable segment of the same file in between: must be ignored
-			if !m.Brief && i == 0 {
+			if !m.Brief && i == 0 && !d.Tight {
 				fmt.Fprintf(&b, "%08x-%08x rw-p %08x 08:01 %d %s\n", m.Limit+0x1000, m.Limit+0x2000, m.Offset+0x1000, 1000+i, m.File)
 			}
 		}
@@ -606,6 +653,14 @@ func check(d *Doc, o *vk.Obs) []string {
 	data := d.Print()
 	o.Label("kind:" + d.Kind)
 	o.LabelIf(d.Sentinel != 0, "memory-map")
+	o.LabelIf(d.Sentinel != 0 && d.Tight, "memory-map-tight")
+	if d.Kind == "cpu" && d.BigEnd && len(d.Maps) == 0 {
+		small := true
+		for _, b := range d.Print() {
+			small = small && b < 128
+		}
+		o.LabelIf(small, "cpu-also-protobuf")
+	}
 	shared := false
 	seen := map[uint64]int{}
 	for i, r := range d.Recs {
@@ -654,6 +709,24 @@ func check(d *Doc, o *vk.Obs) []string {
 		e.Addf("%s: %d samples for %d records\n%s", d.Kind, len(p.Sample), len(want.Samples), clip(data))
 		return e
 	}
+	// an address in no listed region but within Offset bytes below a mapping with a file offset is claimed by the
+	// documented split-mapping work-around, which also rewrites that mapping: such cases (the generator avoids
+	// them, the +16/+32 de-duplication of cpu frames can still produce one) are not judged on mappings
+	workaround := false
+	for _, sm := range p.Sample {
+		for _, l := range sm.Location {
+			in := false
+			for _, m := range d.Maps {
+				in = in || (m.Start <= l.Address && l.Address < m.Limit)
+			}
+			for _, m := range d.Maps {
+				if !in && m.Offset != 0 && m.Start-m.Offset <= l.Address && l.Address < m.Start {
+					workaround = true
+				}
+			}
+		}
+	}
+	o.LabelIf(workaround, "split-mapping-workaround-in-play")
 	for i, s := range p.Sample {
 		w := want.Samples[i]
 		if len(s.Value) != len(w.Values) {
@@ -695,6 +768,9 @@ func check(d *Doc, o *vk.Obs) []string {
 		}
 		// mappings from the trailing memory map
 		for _, l := range s.Location {
+			if workaround {
+				break
+			}
 			var wm *MapEnt
 			for k := range d.Maps {
 				if d.Sentinel != 0 && d.Maps[k].Start <= l.Address && l.Address < d.Maps[k].Limit {
